@@ -936,9 +936,9 @@ func GenW(kind string, seed int64) *WScn {
 	rng := rand.New(rand.NewSource(seed*7919 + int64(len(kind))))
 	sc := &WScn{Kind: kind, Seed: seed, Phone: fmt.Sprintf("1%010d", 3000000000+seed%1000000000), PreJoin: true, Slack: 2 * time.Second}
 	// the phone must be unique per concurrently running scenario: kind is mixed in
-	hk := 0
+	hk := uint32(0)
 	for _, ch := range kind {
-		hk = hk*31 + int(ch)
+		hk = hk*31 + uint32(ch)
 	}
 	sc.Phone = fmt.Sprintf("1%02d%08d", hk%100, seed%100000000)
 	k := 1 + rng.Intn(4)
